@@ -16,4 +16,6 @@ FinalMatch == (st.outcome # "running" /\ ~st.open) =>
                  (Len(st.out) = Len(Traces[ti].out) /\ st.outcome = Traces[ti].outcome)
 \* how many runs stayed inside the defined core (printed once per finished run)
 Report == (st.outcome # "running") => PrintT(<<"CORE", ti, st.open, st.steps, st.why>>)
+\* development aid: the model's output and flags of a finished run
+ReportOut == (st.outcome # "running") => PrintT(<<"MODELOUT", st.out, st.outcome, st.open, st.why>>)
 =============================================================================
